@@ -328,7 +328,8 @@ def run_batch(spec):
     seen = {}
     for v in allv:
         seen.setdefault((v["kind"], v.get("ckey"), v.get("mechanism"), common.h(v["src"])), v)
-    out["violations"] = list(seen.values())[:40]
+    vals = sorted(seen.values(), key=lambda v: 0 if v.get("mechanism") is None else 1)   # unattributed ones first
+    out["violations"] = vals[:60]
     out["counters"] = dict(ctr)
     return out
 
